@@ -38,6 +38,7 @@ ASSUMPTIONS = [
     'cholesky / eigh inputs are symmetric at every order by construction; svd inputs have full rank min(M,N) with distinct singular values >= 0.3, gaps >= 0.3',
     'lu: P is returned as a permutation matrix W with A = W L U (scipy.linalg.lu convention), W constant; lu2/lu_factor: LAPACK pivot indices, row i swapped with row piv[i] in sequence',
     'near-degenerate buckets: A Q = Q diag(lambda), U S V^T = A keep 1e-8; the orthogonality predicates use max(1e-8, 1e-13/gap) because vectors belonging to a gap g carry a relative error eps/g (measured <= 1e-16/g on the unchanged tree)',
+    'the matrix polynomial is handed over as a fresh C-contiguous array or (1/3) as a transposed view X.T; after the call it must be bit-identical to what was passed (the equations are statements about the curve the caller holds)',
     'NumPy, SciPy/LAPACK are trusted',
 ]
 
@@ -323,6 +324,18 @@ def eig_cases(draw, cls, tier, Dmax=2, Dmin=1):
 # properties
 # ---------------------------------------------------------------------------
 
+def _live(case):
+    """the matrix polynomial as handed to algopy: a fresh C-contiguous array or (case['lay'] == 'T') a transposed view"""
+    return R.live_operand(case['A'], True, case.get('lay', 'C'))
+
+
+@st.composite
+def with_layout(draw, strat):
+    case = draw(strat)
+    case['lay'] = draw(st.sampled_from(['C', 'C', 'T']))
+    return case
+
+
 def _utpm(z, what):
     if not isinstance(z, UTPM):
         raise Violation('%s is %s, not UTPM' % (what, type(z).__name__))
@@ -363,7 +376,9 @@ def prop_qr(case, stats):
     D, P, M, N = A.shape
     full = case['op'] == 'qr_full'
     K = M if full else min(M, N)
-    out = guard(algopy.qr_full if full else algopy.qr, UTPM(A.copy()))
+    X = _live(case)
+    out = guard(algopy.qr_full if full else algopy.qr, X)
+    R.assert_unchanged(X, A, case['op'])
     Q, Rr = _utpm(out[0], 'Q'), _utpm(out[1], 'R')
     _shape(Q, (D, P, M, K), 'Q')
     _shape(Rr, (D, P, K, N), 'R')
@@ -381,7 +396,9 @@ def prop_qr(case, stats):
 def prop_cholesky(case, stats):
     A = case['A']
     D, P, n, _ = A.shape
-    L = _utpm(guard(algopy.cholesky, UTPM(A.copy())), 'L')
+    X = _live(case)
+    L = _utpm(guard(algopy.cholesky, X), 'L')
+    R.assert_unchanged(X, A, 'cholesky')
     _shape(L, A.shape, 'L')
     up = np.triu(np.ones((n, n), dtype=bool), 1)
     for p in range(P):
@@ -406,7 +423,9 @@ def _check_LU(L, U, PA, stats, what):
 def prop_lu(case, stats):
     A = case['A']
     D, P, n, _ = A.shape
-    out = guard(algopy.lu, UTPM(A.copy()))
+    X = _live(case)
+    out = guard(algopy.lu, X)
+    R.assert_unchanged(X, A, 'lu')
     W, L, U = _utpm(out[0], 'W'), _utpm(out[1], 'L'), _utpm(out[2], 'U')
     for X, nm in ((W, 'W'), (L, 'L'), (U, 'U')):
         _shape(X, A.shape, nm)
@@ -445,10 +464,14 @@ def prop_lu2(case, stats):
     A = case['A']
     D, P, n, _ = A.shape
     if case['op'] == 'lu2':
-        out = guard(UTPM.lu2, UTPM(A.copy()))
+        X = _live(case)
+        out = guard(UTPM.lu2, X)
+        R.assert_unchanged(X, A, 'lu2')
         PIV, L, U = _utpm(out[0], 'PIV'), _utpm(out[1], 'L'), _utpm(out[2], 'U')
     else:
-        out = guard(UTPM.lu_factor, UTPM(A.copy()))
+        X = _live(case)
+        out = guard(UTPM.lu_factor, X)
+        R.assert_unchanged(X, A, 'lu_factor')
         LU, PIV = _utpm(out[0], 'LU'), _utpm(out[1], 'PIV')
         _shape(LU, A.shape, 'LU')
         L = np.tril(LU, -1)
@@ -471,7 +494,9 @@ def prop_lu2(case, stats):
 def prop_eigh(case, stats):
     A = case['A']
     D, P, n, _ = A.shape
-    out = guard(algopy.eigh, UTPM(A.copy()))
+    X = _live(case)
+    out = guard(algopy.eigh, X)
+    R.assert_unchanged(X, A, 'eigh')
     lam, Q = _utpm(out[0], 'lambda'), _utpm(out[1], 'Q')
     _shape(lam, (D, P, n), 'lambda')
     _shape(Q, (D, P, n, n), 'Q')
@@ -493,7 +518,9 @@ def prop_eigh(case, stats):
 def prop_eig(case, stats):
     A = case['A']
     D, P, n, _ = A.shape
-    out = R.guard_declared(algopy.eig, UTPM(A.copy()), declared=EIG_DECLARED)
+    X = _live(case)
+    out = R.guard_declared(algopy.eig, X, declared=EIG_DECLARED)
+    R.assert_unchanged(X, A, 'eig')
     lam, Q = _utpm(out[0], 'lambda'), _utpm(out[1], 'Q')
     _shape(lam, (D, P, n), 'lambda')
     _shape(Q, (D, P, n, n), 'Q')
@@ -512,7 +539,9 @@ def prop_svd(case, stats):
     A = case['A']
     D, P, M, N = A.shape
     K = min(M, N)
-    out = guard(algopy.svd, UTPM(A.copy()))
+    X = _live(case)
+    out = guard(algopy.svd, X)
+    R.assert_unchanged(X, A, 'svd')
     U, s, V = _utpm(out[0], 'U'), _utpm(out[1], 's'), _utpm(out[2], 'V')
     _shape(U, (D, P, M, M), 'U')
     _shape(s, (D, P, K), 's')
@@ -554,6 +583,8 @@ def _classes(case):
          'shape=' + ('square' if M == N else 'tall' if M > N else 'wide'), 'pattern=' + gen.pattern_class(A)]
     if gen.distinct_bases(A):
         c.append('distinct-bases')
+    if case.get('lay') == 'T':
+        c.append('layout=transposed-view operand')
     if case['op'] in ('lu', 'lu2', 'lu_factor'):
         pv = []
         for p in range(P):
@@ -582,7 +613,7 @@ def buckets(tier):
     bl = []
 
     def add(name, strat, prop, nq, nt, shards=1, weight=1.0):
-        bl.append(Bucket(name, strat, prop, {'quick': nq, 'thorough': nt}, nontrivial=_nontrivial, classes=_classes,
+        bl.append(Bucket(name, (lambda strat=strat: with_layout(strat())), prop, {'quick': nq, 'thorough': nt}, nontrivial=_nontrivial, classes=_classes,
                          shards={'quick': 1, 'thorough': shards}, weight=weight))
 
     for sc in ('square', 'tall', 'wide'):
